@@ -42,6 +42,11 @@ chk("C16", "shadowsym", "other",
     "Symbolic variables are booleans (exhaustive over feasible branch outcomes; z3 does feasibility bookkeeping). Comment stripping is the harness's own language-aware lexer. Library-level literalinclude excluded by the property.",
     "symbolic execution of the real pipeline with symbolic option booleans (shadowsym)", "DESIGN.md 3/C16")
 
+chk("C14", "shadowsym", "other",
+    "K1: util.Scope laws (nearest enclosing setter, update, clone, reparent, inlocal) decided by z3 over symbolic integer values and engine-chosen placements. K2: one user format field referenced from the C name template and the options F_force_wrapper / C_force_wrapper placed at library/namespace/class/block/function level by symbolic booleans; per path the whole real pipeline runs on the description and on the equivalent one where every leaf declaration carries its nearest enclosing setter's value, outputs byte-identical. K3: symbolic subsets of attributes on four declaration shapes, inline spelling vs attrs/fattrs through the whole pipeline. K4: symbolic split of six options and the language between YAML and --option/--language through the real main_with_args, plus create_wrapper vs the command line.",
+    "Placements, subsets and splits are boolean choices explored exhaustively by the engine (z3: feasibility; K1 also value equalities). Equality is byte equality of all generated files except the JSON dump. Other option/format names, deeper trees and other attribute shapes are outside the bound.",
+    "symbolic execution of the real code with symbolic placement booleans (shadowsym), two-run equivalence per path", "DESIGN.md 3/C14")
+
 NA = {
  "C01": "generated Fortran run-time behaviour: no Fortran front end yields anything a solver can execute; C-side kernels covered under C02/C06/C10",
  "C04": "finite structural comparison of two emitted texts with a Fortran processor's interoperability rules as oracle; nothing symbolic to decide",
